@@ -99,11 +99,17 @@ def parse_arm(ctx, binp, extra_argvs):
     preds = g.printed
     if len(preds) < 1000:
         raise Inconclusive('GEN(parse) produced too few vectors')
+    preds.sort(key=lambda p: json.dumps(p['argv']))
     seen, uniq = set(), []
     for p in preds:
         k = json.dumps(p['argv'])
-        if k not in seen:
-            seen.add(k); uniq.append(p)
+        if k in seen:
+            continue
+        seen.add(k)
+        if len(p['argv']) >= 4 and ctx.rng.random() > 0.25:     # thorough only: a seeded quarter of the length-4 vectors goes to the real parser
+            continue
+        uniq.append(p)
+    ctx.cov['parse_vectors_emitted'] = len(seen)
     cpath = os.path.join(ctx.build, 'parse_cases.ndjson')
     vlib.write_ndjson(cpath, [dict(argv=p['argv']) for p in uniq] + [dict(argv=a) for a in extra_argvs])
     opath = os.path.join(ctx.build, 'parse_out.ndjson')
@@ -181,10 +187,14 @@ def jq_arm(ctx, cases):
     for c in cases:
         if c['st'] != 'ok' or c['exit'] not in (0, 3) or not set(c['inputs']) <= good or (not c['fidx'] and c['stdin'] not in 'ABC'):
             continue
-        argv, ok = [], True
+        argv, ok, seen_pos = [], True, False
         for t in c['toks']:
             if t['k'] in ('dd', 'bad') or (t['k'] == 'flag' and (t['inl'] or not set(t['names']) <= known)):
                 ok = False
+            if t['k'] == 'flag' and 'expr_file' in t['names'] and seen_pos:
+                ok = False          # jq takes the program from the first positional it has seen before -f
+            seen_pos = seen_pos or t['k'] == 'pos'
+
             argv.append('--rawfile' if t['k'] == 'flag' and t['names'] == ['raw_file'] else ''.join(t['sym']))
         if not ok:
             continue
@@ -311,6 +321,9 @@ def run(ctx):
     rej, driftl, res = ctx.tv('TraceCLI', 'TraceCLI.cfg', tpath, name='tv_cli', timeout=1500)
     badtag = [l for l in res.raw_printed if l.startswith('<<"BADTAG"')]
     unjudged = [l for l in res.raw_printed if l.startswith('<<"UNJUDGED"')]
+    nosolo = [l for l in res.raw_printed if l.startswith('<<"NOSOLO"')]
+    if nosolo:
+        raise Inconclusive('%d events where independence applies were recorded without solo runs, e.g. %s' % (len(nosolo), nosolo[0]))
     if badtag:
         raise Inconclusive('%d events with tags that do not match their symbols, e.g. %s' % (len(badtag), badtag[0]))
     if len(unjudged) > len(events) // 8:
